@@ -1294,6 +1294,7 @@ func validStream(n int, exhaustLen int) {
 		default:
 			// numbers and strings at the edges of the grammar
 			b = []byte(pick("-", "-0", "-01", "0.", "0.e1", "1e", "1e+", "1E-0", "01", "1.0e+10", "\"\\u12\"", "\"\\u123g\"", "\"\\x\"", "\"\x7f\"", "\"\xff\"", "\"\\ud800\"",
+				"\"x \t\t\t\t\t\t\t\ty\"", "{\"k \t\t\t\t\t\t\t\t\":1}", "[\"a         \t\t\t\t\t\t\t\t\"]", "\"        \"", "[1, \t\t\t\t\t\t\t\t2]",
 				"tru", "truee", "nul", "[1,]", "[,1]", "{\"a\"}", "{\"a\":}", "{,}", "{\"a\":1,}", "[] []", "\ufeff[]", "[\"\t\"]", "[1 2]", "{\"a\" 1}", "\"a\nb\""))
 		}
 		validCase(b, true)
@@ -1730,6 +1731,30 @@ func cliStream(n int, bin string) {
 					cmd.Stdin = f
 				}
 			}
+		} else if chance(0.08) {
+			// the document arrives in several writes with pauses, and may be larger than a pipe buffer
+			if chance(0.4) && len(doc) > 2 && (doc[0] == '{' || doc[0] == '[') {
+				pad := `"` + strings.Repeat("p", 70000+rng.Intn(200000)) + `"`
+				if doc[0] == '{' {
+					doc = []byte(`{"pad":` + pad + `,"z":` + string(doc) + `}`)
+				} else {
+					doc = []byte(`[` + pad + `,` + string(doc) + `]`)
+				}
+			}
+			cmd.Stdin = nil
+			if w, err := cmd.StdinPipe(); err != nil {
+				cmd.Stdin = bytes.NewReader(doc)
+			} else {
+				pieces := 2 + rng.Intn(3)
+				go func(d []byte) {
+					defer w.Close()
+					for q := 0; q < pieces; q++ {
+						lo, hi := len(d)*q/pieces, len(d)*(q+1)/pieces
+						w.Write(d[lo:hi])
+						time.Sleep(3 * time.Millisecond)
+					}
+				}(append([]byte{}, doc...))
+			}
 		} else if chance(0.1) {
 			sp := filepath.Join(dir, fmt.Sprintf("stdin%d.json", i))
 			os.WriteFile(sp, doc, 0o644)
@@ -1889,6 +1914,12 @@ func mkPool() *pool {
 			p.patches = append(p.patches, pt)
 			p.ptexts = append(p.ptexts, t)
 		}
+	}
+	if chance(0.3) {
+		// patch texts whose operations spell a member only in other cases, twice and differently (they are
+		// decoded again and again in the history: the answer must not change)
+		p.docs = append(p.docs, []byte(pick(`[{"Op":"add","OP":"remove","path":"/a","value":2}]`, `[{"op":"add","path":"/a","Value":1,"VALUE":[2]}]`,
+			`[{"op":"add","Path":"/a","PATH":"/b","value":1}]`, `[{"op":"copy","From":"/a","FROM":"/b","path":"/c"}]`, `[{"oP":"test","Op":"remove","path":"/a","value":1}]`)))
 	}
 	if len(p.patches) == 0 {
 		pt, _ := jsonpatch.DecodePatch([]byte("[]"))
